@@ -1579,8 +1579,15 @@ impl Vm {
 
     fn reset_stack(&mut self) {
         if let Some(fiber) = self.fiber.as_ref() {
+            // Closures that outlive the failed run keep the variables they captured, in the
+            // failing fiber and in every fiber waiting for it.
+            let mut caller = fiber.borrow().caller;
+            while let Some(waiting) = caller {
+                let mut borrowed_waiting = waiting.borrow_mut();
+                borrowed_waiting.close_upvalues(0);
+                caller = borrowed_waiting.caller;
+            }
             let mut borrowed_fiber = fiber.borrow_mut();
-            // Closures that outlive the failed run keep the variables they captured.
             borrowed_fiber.close_upvalues(0);
             borrowed_fiber.stack.clear();
             borrowed_fiber.frames.clear();
